@@ -135,6 +135,44 @@ pub fn run(ctx: &mut Ctx) {
         }
     }
     ctx.exhaustive.insert("all ordered pairs of documents with <=3 nodes".into(), !ctx.miri);
+    // every pairing of the boundary numbers, as array element against array element and as
+    // bare scalars: containment of numbers is numeric equality, whatever the encodings
+    let mut nums: Vec<Num> = Vec::new();
+    for v in gen::int_pool() {
+        if v >= 0 {
+            nums.push(Num::U(v as u64));
+        }
+        if v <= i64::MAX as i128 {
+            nums.push(Num::I(v as i64));
+        }
+    }
+    for f in gen::float_pool() {
+        nums.push(Num::f(f));
+    }
+    if !ctx.miri {
+        let mut k = 0usize;
+        for a in nums.iter() {
+            k += 1;
+            if k % ctx.nshards != ctx.shard {
+                continue;
+            }
+            if !ctx.next_case() {
+                return;
+            }
+            for b in nums.iter() {
+                let (ta, tb) = (Tree::Num(*a), Tree::Num(*b));
+                let (ea, eb) = (crate::refcodec::encode(&Tree::Arr(vec![Tree::Null, ta.clone()])), crate::refcodec::encode(&Tree::Arr(vec![tb.clone()])));
+                let expect = crate::refnum::eq(a, b);
+                let info = || format!("a=[null,{}] b=[{}]", a.show(), b.show());
+                if let Some(r) = lib_contains(ctx, &ea, &eb, &info) {
+                    if r != expect {
+                        ctx.violation(&format!("contains/wrong/jsonb/{}", involves_retyped_numbers(&ta, &tb)), || format!("contains={} but the numbers are {} ; {}", r, if expect { "equal" } else { "different" }, info()));
+                    }
+                }
+            }
+        }
+        ctx.exhaustive.insert("all ordered pairs of boundary numbers as array elements".into(), true);
+    }
     let mon = super::routes::Monitor::new(&["contains"]);
     let n = ctx.budget(500_000, 10_000_000);
     for i in 0..n {
@@ -157,6 +195,36 @@ pub fn run(ctx: &mut Ctx) {
         if i % 4 == 1 && a.nodes() < 300 {
             let args = super::routes::plain_args(&a, &mut rng);
             mon.check(ctx, &a, &b, &args, &mut rng);
+        }
+        if i % 101 == 9 && !ctx.miri {
+            // a left array of hundreds of elements (beyond what a linear scan is kept for) against
+            // right arrays whose elements equal left ones in another encoding, repeat left
+            // elements more often than the left has them, or are absent
+            let n = *rng.pick(&[200usize, 256, 257, 258, 300, 1000]);
+            let left: Vec<Tree> = (0..n).map(|k| if k % 3 == 0 { Tree::Num(*rng.pick(&nums)) } else if k % 3 == 1 { Tree::Num(gen::num(&mut rng, false)) } else { gen::scalar(&mut rng, false) }).collect();
+            let mut right: Vec<Tree> = Vec::new();
+            for _ in 0..(1 + rng.below(4)) {
+                let x = rng.pick(&left).clone();
+                right.push(match rng.below(3) {
+                    0 => x,
+                    1 => gen::derive(&x, &mut rng),
+                    _ => gen::derive(&gen::derive(&x, &mut rng), &mut rng),
+                });
+            }
+            check_pair(ctx, &Tree::Arr(left.clone()), &Tree::Arr(right.clone()));
+            check_pair(ctx, &Tree::Obj(vec![("k".into(), Tree::Arr(left))]), &Tree::Obj(vec![("k".into(), Tree::Arr(right))]));
+        }
+        if i % 7 == 3 {
+            // order and multiplicity are ignored: a right array longer than the left one, made of
+            // the left one's elements repeated and shuffled, is still contained
+            if let Tree::Arr(v) = &a {
+                if !v.is_empty() && v.len() < 20 {
+                    let m = v.len() + 1 + rng.below(4);
+                    let r: Vec<Tree> = (0..m).map(|_| rng.pick(v).clone()).collect();
+                    check_pair(ctx, &a, &Tree::Arr(r.clone()));
+                    check_pair(ctx, &Tree::Arr(vec![a.clone()]), &Tree::Arr(vec![Tree::Arr(r)]));
+                }
+            }
         }
         let (ea, eb, ec) = (crate::refcodec::encode(&a), crate::refcodec::encode(&b), crate::refcodec::encode(&c));
         let info = || format!("a={} b={} c={}", a.show(), b.show(), c.show());
